@@ -15,6 +15,8 @@ import Mathlib.Data.Rat.Floor
 import PsutilModel.Proofs.C15Examples
 import PsutilModel.Proofs.C15Term
 import PsutilModel.Proofs.C15Ext
+import PsutilModel.Proofs.C15R2
+import PsutilModel.Proofs.C15Cost
 import PsutilModel.Model.C15Gen
 namespace Psutil.C15
 open Spec
@@ -780,5 +782,190 @@ example : exPopen.subRc = none ∧
   refine ⟨rfl, ?_, ?_⟩
   · rw [h.2.2.2.2, e]; rfl
   · rw [h.2.2.2.1]; exact procWait_code_stored exChild _ 50 0 exPopen.proc 1 e
+
+
+/-! ## second extension — Popen objects and equal objects inside `wait_procs`, unhashable items,
+      "callback exactly once" for any number of passes, system calls that take time -/
+
+/-- proof obligation on the translator's facts: every `for proc in …` of `wait_procs` iterates
+    `alive` — the name the `while` tests and `alive = alive - gone` refreshes after each pass (a
+    loop over a list built once would poll, and call back for, a gone process again on every later
+    pass) — and `alive` starts as `set(procs)`, built after the timeout validation -/
+theorem cfg_wait_procs_shape : cfg.loopsOverAlive = true ∧ cfg.aliveIsSet = true := by decide
+
+section
+variable (envOf : Nat → Env) (hasCb : Bool) (order : Nat → List Nat → List Nat) (fuel : Nat)
+  (hperm : ∀ k l, (order k l).Perm l)
+
+/-- `wait_procs` over a list mixing plain `Process` objects and `psutil.Popen` objects (whose
+    `wait` answers from `subprocess`'s `returncode` first) behaves, once the classes are forgotten,
+    exactly as `wait_procs` over Process objects in which a stored returncode sits in `_exitcode` -/
+theorem C15_wait_procs_mixed_is_wait_procs (procs : List Nat) (timeout : Option Rat) (m : WPM) :
+    waitProcs cfg envOf procs timeout hasCb order fuel m.embed =
+      (waitProcsM cfg envOf procs timeout hasCb order fuel m).map (fun r => (r.1.embed, r.2)) :=
+  waitProcsM_embed cfg_good cfg_popen_validates_first envOf hasCb fuel order procs timeout m
+
+include hperm in
+/-- … hence every clause of the property holds for Popen objects and mixed lists: partition,
+    callback exactly once, returncode set to the right value, gone really ended, return before
+    deadline + 40 ms, no timeout ⇒ all gone; and for a gone Popen whose `subprocess` returncode is an
+    exit status, the `returncode` attribute set by `wait_procs` is that status -/
+theorem C15_wait_procs_mixed (procs : List Nat) (timeout : Option Rat) (m m' : WPM) (alive' : List Nat)
+    (hf : Fresh envOf m.embed)
+    (h : waitProcsM cfg envOf procs timeout hasCb order fuel m = .ok (m', alive')) :
+    partitionOk ⟨envOf, procs, timeout, m.w.now, hasCb⟩ (obsProcs m'.w alive') ∧
+    callbackOnce ⟨envOf, procs, timeout, m.w.now, hasCb⟩ (obsProcs m'.w alive') ∧
+    returncodeSet ⟨envOf, procs, timeout, m.w.now, hasCb⟩ (obsProcs m'.w alive') ∧
+    goneEnded ⟨envOf, procs, timeout, m.w.now, hasCb⟩ (obsProcs m'.w alive') ∧
+    deadlineOk ⟨envOf, procs, timeout, m.w.now, hasCb⟩ (obsProcs m'.w alive') ∧
+    noTimeoutAllGone ⟨envOf, procs, timeout, m.w.now, hasCb⟩ (obsProcs m'.w alive') ∧
+    (∀ pid ∈ m'.w.gone, ∀ cc, m'.sub pid = some (some cc) → (m'.w.objs pid).returncode = some (some cc)) := by
+  have he : waitProcs cfg envOf procs timeout hasCb order fuel m.embed = .ok (m'.embed, alive') := by
+    rw [C15_wait_procs_mixed_is_wait_procs, h]; rfl
+  have ho : obsProcs m'.w alive' = obsProcs m'.embed alive' := by
+    unfold obsProcs
+    congr 1
+    funext p
+    exact (embedObj_returncode _ _).symm
+  rw [ho]
+  refine ⟨C15_wait_procs_partition envOf procs timeout hasCb order fuel m.embed m'.embed alive' hperm hf he,
+    (C15_callback_once envOf procs timeout hasCb order fuel m.embed m'.embed alive' hperm hf he).1,
+    (C15_returncode_set envOf procs timeout hasCb order fuel m.embed m'.embed alive' hperm hf he).1,
+    C15_wait_procs_gone_ended envOf procs timeout hasCb order fuel m.embed m'.embed alive' hperm hf he,
+    (C15_wait_procs_deadline envOf procs timeout hasCb order fuel m.embed m'.embed alive' hperm hf he).1,
+    C15_wait_procs_no_timeout_all_gone envOf procs timeout hasCb order fuel m.embed m'.embed alive' hperm hf he,
+    ?_⟩
+  intro pid hp cc hs
+  obtain ⟨h1, _⟩ := (C15_returncode_set envOf procs timeout hasCb order fuel m.embed m'.embed alive' hperm hf he).2 pid hp
+  have e1 : (m'.embed.objs pid).returncode = (m'.w.objs pid).returncode := embedObj_returncode _ _
+  have e2 : (m'.embed.objs pid).exitcode = some (some cc) := by
+    simp [WPM.embed, hs, embedObj]
+  rw [← e1, h1, e2]
+
+/-- a list of plain Process objects is the special case: nothing to forget -/
+theorem C15_wait_procs_mixed_plain (procs : List Nat) (timeout : Option Rat) (w : WP) :
+    waitProcs cfg envOf procs timeout hasCb order fuel w =
+      (waitProcsM cfg envOf procs timeout hasCb order fuel ⟨w, fun _ => none⟩).map (fun r => (r.1.embed, r.2)) := by
+  have := C15_wait_procs_mixed_is_wait_procs envOf hasCb order fuel procs timeout ⟨w, fun _ => none⟩
+  rw [← this]
+  rfl
+
+include hperm in
+/-- **callback exactly once, for ANY number of passes.** Start the `while alive:` loop (with a
+    timeout) in ANY reachable intermediate state — some processes already found gone in earlier
+    passes (callback already made for them), others still alive — and let it run for ANY number
+    `k` of further passes: every process that was already gone is still gone, is in the callback
+    log exactly once (never called back again), the log is the gone list, and nothing is both gone
+    and alive. -/
+theorem C15_callback_once_any_passes (k : Nat) (input alive : List Nat) (w w' : WP) (alive' : List Nat)
+    (tmo deadline : Rat) (hl : LInv envOf hasCb input w alive) (hd : w.now < deadline + Spec.cap)
+    (h : whileT cfg envOf hasCb fuel order deadline k alive w tmo = .ok (w', alive')) :
+    (∀ p ∈ w.gone, p ∈ w'.gone ∧ w'.cbLog.count p = if hasCb then 1 else 0) ∧
+    w'.cbLog = (if hasCb then w'.gone else []) ∧ w'.gone.Nodup ∧ (∀ p ∈ alive', p ∉ w'.gone) := by
+  obtain ⟨⟨hi, _, hmem⟩, _, _⟩ :=
+    whileT_inv cfg_good envOf hasCb fuel input order hperm deadline k alive w tmo w' alive' hl hd h
+  have hm := whileT_gone_mono cfg_good envOf hasCb fuel input order hperm deadline k alive w tmo w' alive' hl hd h
+  refine ⟨fun p hp => ⟨hm p hp, ?_⟩, hi.cb, hi.nodup, fun p hp => ((hmem p).1 hp).2⟩
+  rw [hi.cb]
+  cases hasCb
+  · simp
+  · simp only [if_true]
+    have c1 := (List.nodup_iff_count.1 hi.nodup) p
+    have c2 := List.count_pos_iff.2 (hm p hp)
+    omega
+
+include hperm in
+/-- the same without a timeout (`timeout=None` passes last 1/len(alive) s per process) -/
+theorem C15_callback_once_any_passes_no_timeout (k : Nat) (input alive : List Nat) (w w' : WP)
+    (alive' : List Nat) (hl : LInv envOf hasCb input w alive)
+    (h : whileN cfg envOf hasCb fuel order k alive w = .ok (w', alive')) :
+    (∀ p ∈ w.gone, p ∈ w'.gone ∧ w'.cbLog.count p = if hasCb then 1 else 0) ∧
+    w'.cbLog = (if hasCb then w'.gone else []) ∧ w'.gone.Nodup ∧ alive' = [] := by
+  obtain ⟨⟨hi, _, _⟩, _, he⟩ :=
+    whileN_inv cfg_good envOf hasCb fuel input order hperm k alive w w' alive' hl h
+  have hm := whileN_gone_mono cfg_good envOf hasCb fuel input order hperm k alive w w' alive' hl h
+  refine ⟨fun p hp => ⟨hm p hp, ?_⟩, hi.cb, hi.nodup, he⟩
+  rw [hi.cb]
+  cases hasCb
+  · simp
+  · simp only [if_true]
+    have c1 := (List.nodup_iff_count.1 hi.nodup) p
+    have c2 := List.count_pos_iff.2 (hm p hp)
+    omega
+
+end
+
+/-- the hypotheses of `C15_callback_once_any_passes` are met by a state with one process gone
+    (callback made) and one alive: the state `wait_procs([p1, p2, p1], 0)` of the example ends in -/
+example : ∃ w alive, LInv exEnv true (dedup [1, 2, 1]) w alive ∧ w.gone = [1] ∧ alive = [2] ∧ w.cbLog = [1] := by
+  obtain ⟨w', h, hgone, _, _, hcb, _⟩ := ex_procs cfg_good
+  obtain ⟨hl, _⟩ := waitProcs_inv cfg_good exEnv true 5 (fun _ l => l) (fun _ l => List.Perm.refl l)
+    [1, 2, 1] (some 0) exW w' [2] exW_fresh h
+  exact ⟨w', [2], hl, hgone, rfl, hcb⟩
+
+/-- `set(procs)`: of several EQUAL objects (two `Process`/`Popen` objects of one process hash
+    alike and compare equal) exactly one survives — the one that comes FIRST in the list. It is the
+    object `wait_procs` waits on, sets `returncode` on, passes to the callback and returns; the
+    others are never touched. -/
+theorem C15_set_keeps_first (l : List Item) :
+    ((setOf l).map Item.pid).Nodup ∧
+    (∀ p, (∃ x ∈ setOf l, x.pid = p) ↔ ∃ x ∈ l, x.pid = p) ∧
+    (∀ x ∈ setOf l, x ∈ l ∧ survivor l x.pid = some x) :=
+  ⟨setOf_nodup l, fun _ => mem_setOf_pid, fun x hx => ⟨setOf_sub hx, setOf_first l x hx⟩⟩
+
+example : setOf [⟨7, 0⟩, ⟨8, 1⟩, ⟨7, 2⟩] = [⟨7, 0⟩, ⟨8, 1⟩] := by decide
+
+/-- `wait_procs` refuses exactly that, before anything else happens; otherwise it is the loop -/
+theorem C15_wait_procs_arguments_unhashable (envOf : Nat → Env) (procs : List Nat) (hashable : Bool)
+    (timeout : Option Rat) (cb : Cb) (order : Nat → List Nat → List Nat) (fuel : Nat) (m : WPM) :
+    waitProcsFrontM cfg envOf procs hashable timeout cb order fuel m =
+      match wpRefusalM timeout hashable (cb != .absent) (cb == .callable) with
+      | some .valueError => .error (.out .valueError)
+      | some .typeError => .error .typeError
+      | none =>
+        match waitProcsM cfg envOf procs timeout (cb != .absent) order fuel m with
+        | .error o => .error (.out o)
+        | .ok r => .ok r := by
+  unfold waitProcsFrontM wpRefusalM wpRefusal
+  cases hn : negative timeout <;> cases hashable <;> cases cb <;> simp [cfg_good.cbCheck] <;> rfl
+
+/-! ### system calls that take time -/
+
+/-- the costed model with zero costs is the model all theorems above speak about -/
+theorem C15_costed_zero (env : Env) (pid : Nat) (timeout : Option Rat) (fuel : Nat) (now : Rat) (nWait nSys : Nat) :
+    ((waitPidC cfg zc env pid timeout fuel now nWait nSys).1,
+     (waitPidC cfg zc env pid timeout fuel now nWait nSys).2.toSt) = waitPid cfg env pid timeout fuel now nWait :=
+  waitPidC_zero cfg env pid timeout fuel now nWait nSys
+
+/-- **every bound of the property with 40 ms replaced by 40 ms + 5·δ.** If every system call
+    `wait_pid` makes (`_timer()`, `os.waitpid`, `_pid_exists`, `_sleep`) takes at most δ longer
+    than it should (0 ≤ cost k ≤ δ for the k-th call), then for every environment, timeout τ ≥ 0,
+    fuel and start instant: (1) whatever the call does, it has done it before start + τ + 40 ms + 5·δ
+    (c = 5: one `_timer()` for `stop_at`, then at most `_sleep`'s overshoot, `waitpid`,
+    `_pid_exists`, `_timer()` between a clock reading before the deadline and the next one);
+    (2) never early, unchanged; (3) TimeoutExpired carries (τ, pid) and is never raised before
+    start + τ, unchanged; (4) when it is raised (last waitpid call not interrupted) the process
+    had not ended δ before the raise instant. -/
+theorem C15_costed_bounds (cost : Nat → Rat) (δ : Rat) (hc : ∀ k, 0 ≤ cost k ∧ cost k ≤ δ)
+    (env : Env) (pid : Nat) (timeout : Option Rat) (fuel : Nat) (now : Rat) (nWait nSys : Nat)
+    (hτ : ∀ τ, timeout = some τ → 0 ≤ τ) :
+    let r := waitPidC cfg cost env pid timeout fuel now nWait nSys
+    (∀ τ, timeout = some τ → r.2.now < now + τ + Spec.cap + 5 * δ) ∧
+    (∀ cc, r.1 = .code cc → isChild env ∧ endedBy env r.2.now) ∧
+    (r.1 = .none → ¬ isChild env ∧ endedBy env r.2.now) ∧
+    (∀ sec p, r.1 = .timeout sec p → timeout = some sec ∧ p = pid ∧ now + sec ≤ r.2.now ∧
+        (env.eintr (r.2.nWait - 1) = false → ¬ endedBy env (r.2.now - δ))) := by
+  intro r
+  obtain ⟨h1, h2, h3, h4⟩ := waitPidC_good cfg_good cost δ hc env pid timeout fuel now nWait nSys hτ
+  exact ⟨fun τ ht => h1 τ ht (hτ τ ht), h2, h3, h4⟩
+
+/-- the constant cannot be 0: with δ = 1 ms a never-ending process and timeout 0 the raise instant
+    is start + 4 ms (four system calls: `_timer` for stop_at, `waitpid`, `_pid_exists`, `_timer`) — the zero-cost bound start + 0 + 40 ms still holds here, the
+    point is that the raise instant moves with δ -/
+example : (waitPidC cfg (fun _ => 1 / 1000) exOther 8 (some 0) 5 0 0 0).2.now = 4 / 1000 := by
+  have hg := cfg_good
+  simp [waitPidC, waitLoopC, pollNonChildC, sleepStepC, pastDeadline, hg.check, hg.ge, exOther, CSt.sys,
+    CSt.waited, Env.pidExists, Env.ended]
+  norm_num
 
 end Psutil.C15
